@@ -681,11 +681,28 @@ Section C13Thr.
           destruct F as [F|F]; [left|right; lia];
           unfold registered in *; simpl; unfold upd; destruct (Nat.eqb_spec t0 (ntrig st)); [lia|];
           intro Hx; apply in_app_iff in Hx; destruct Hx as [Hx|[Hx|[]]]; [tauto|inversion Hx; lia]).
-    all: match goal with HI : forall p, p ?i = true -> _ |- ?g =>
-           match g with
-           | forall t, nstart t _ = _ => idtac i "nstart"
-           | forall t, In _ _ -> _ => idtac i "end"
-           | _ => idtac i "other"
-           end end.
-  Admitted.
+    - (* start-up failure: GEnd t is logged, doneTriggerFromUpdater is pending *)
+      intros t0 [Hd|Ht0].
+      + inversion Hd; subst t0. split; [auto|right]. hq HQ (is_doner t). rewrite Nat.eqb_refl in *. simpl in *. lia.
+      + hq HQ (is_doner t0). destruct (cb_end _ HC t0 Ht0) as [F1 [F|F]]; unfold registered in *; simpl; split; auto. right.
+        destruct (t =? t0); simpl in *; lia.
+    - (* doneTriggerFromUpdater of a trigger that is no longer the registered one: nothing happens *)
+      rewrite Hfc in Ec. destruct (is_reg st t) eqn:Er; [discriminate|].
+      assert (Hnr : ~ registered st t) by (unfold registered; intro Hx; apply (is_reg_true _ _ HR) in Hx; congruence).
+      intros t0 [Hd|Ht0]; [discriminate|].
+      hq HQ (is_doner t0). destruct (cb_end _ HC t0 Ht0) as [F1 [F|F]]; unfold registered in *; simpl; split; auto.
+      destruct (Nat.eqb_spec t t0); subst; simpl in *; [left; auto|right; lia].
+    - (* Done(): GEnd t is logged, doneTriggerFromUpdater is pending *)
+      intros t0 [Hd|Ht0].
+      + inversion Hd; subst t0. split; [auto|right]. hq HQ (is_doner t). rewrite Nat.eqb_refl in *. simpl in *. lia.
+      + hq HQ (is_doner t0). destruct (cb_end _ HC t0 Ht0) as [F1 [F|F]]; unfold registered in *; simpl; unfold upd.
+        * split; auto. left. destruct (Nat.eqb_spec t0 t); subst; simpl; auto.
+        * split; auto. right. destruct (t =? t0); simpl in *; lia.
+    - intros t0. simpl. rewrite nstart_plain by (apply plain_map; auto). rewrite (cb_nstart _ HC t0).
+      unfold upd. destruct (Nat.eqb_spec t0 t); subst; simpl; auto.
+    - intros t0 Ht0. simpl in Ht0. apply In_GEnd_plain in Ht0; [|apply plain_map; auto].
+      hq HQ (is_doner t0). destruct (cb_end _ HC t0 Ht0) as [F1 [F|F]]; unfold registered in *; simpl; unfold upd.
+      * split; auto. left. destruct (Nat.eqb_spec t0 t); subst; simpl; auto.
+      * split; auto. right. lia.
+  Qed.
 End C13Thr.
